@@ -532,9 +532,20 @@ Proof.
     + intro E. rewrite Hw in E. discriminate.
 Qed.
 
-Lemma cancel_reject_T st ms : base_ok ms = true -> change_status st K_ORDERCANCELREJECT 0 ms false = T.
+(* a cancel reject moves an order that waits for an answer to the reported status ... *)
+Lemma cancel_reject_T st ms :
+  st = PENDING_CANCEL \/ st = PENDING_REPLACE -> base_ok ms = true ->
+  change_status st K_ORDERCANCELREJECT 0 ms false = T.
 Proof.
-  intro H. destruct (base_ok_cases _ H) as [E|[E|[E|[E|[E|E]]]]]; rewrite E; reflexivity.
+  intros Hs H. destruct (base_ok_cases _ H) as [E|[E|[E|[E|[E|E]]]]]; rewrite E;
+    destruct Hs as [-> | ->]; reflexivity.
+Qed.
+
+(* ... and is ignored by a finished one (repaired table, round 7) *)
+Lemma cancel_reject_finished st ms :
+  OrderStatus.is_finished st = true -> (change_status st K_ORDERCANCELREJECT 0 ms false =? T) = false.
+Proof.
+  intro H. apply is_finished_iff in H. destruct H as [H|[H|[H|H]]]; rewrite H; reflexivity.
 Qed.
 
 Lemma catchup_answer legacy o x p a x1 r :
@@ -598,24 +609,41 @@ Proof.
   - (* cancel reject *)
     inversion Hx; subst x1 r; clear Hx. cbn [process_report].
     destruct (pcr_post legacy o (p_clid p) (p_orig p) (x_base x)) as [Pcum Plv Ppx Pqty _ _ _ Pst _ Pids _].
-    assert (Hrc : rej_changes legacy o (x_base x) = true).
-    { unfold rej_changes. rewrite (cancel_reject_T _ _ Hb), (base_ok_mem _ Hb), orb_true_r. reflexivity. }
-    rewrite Hrc in Pst, Pids. rewrite Ho, (truthy_cons _ Hn) in Pids.
     assert (Hnr : (x_base x =? REJECTED) = false).
     { destruct (base_ok_cases _ Hb) as [E|[E|[E|[E|[E|E]]]]]; rewrite E; reflexivity. }
     rewrite Hnr in Plv.
-    apply SyIdle; cbn [bump set_pend x_pend x_base x_cum x_leaves x_price x_qty x_clord]; auto.
-    + unfold fields_ok. cbn [bump set_pend x_base x_cum x_leaves x_price x_qty].
-      rewrite Pcum, Plv, Ppx, Pqty. split; [exact Hcum|]. split; [exact Hlv|].
-      split; [intros _; apply Hpq, base_ok_not_created, Hb|]. intro E; rewrite E in Hb; discriminate.
-    + unfold ids_idle. cbn [bump set_pend x_base x_clord]. intros _.
-      destruct legacy; cbv [negb andb] in Pids; cbv iota in Pids.
-      * right. destruct Pids as [P1 P2]. rewrite P2, Hl. split; [reflexivity|]. split; [reflexivity|]. rewrite <- Hl. exact Hn.
-      * left. destruct Pids as [P1 P2]. rewrite P2, <- Hl. split; [congruence|reflexivity].
-    + destruct legacy; cbv [negb andb] in Pids; cbv iota in Pids; destruct Pids as [P1 P2].
+    assert (Hwait : (o_status o = PENDING_CANCEL \/ o_status o = PENDING_REPLACE)
+                    \/ (o_status o = CANCELED /\ x_base x = CANCELED)).
+    { destruct (p_kind p); cbn [kind_status] in Hk; [destruct Hk as [Hk|Hk]|]; auto. }
+    destruct Hwait as [Hwait|[Hoc Hxc]].
+    + (* the object waits for the answer: it takes the reported status and its ids back *)
+      assert (Hrc : rej_changes legacy o (x_base x) = true).
+      { unfold rej_changes. rewrite (cancel_reject_T _ _ Hwait Hb), (base_ok_mem _ Hb), orb_true_r. reflexivity. }
+      rewrite Hrc in Pst, Pids. rewrite Ho, (truthy_cons _ Hn) in Pids.
+      apply SyIdle; cbn [bump set_pend x_pend x_base x_cum x_leaves x_price x_qty x_clord]; auto.
+      * unfold fields_ok. cbn [bump set_pend x_base x_cum x_leaves x_price x_qty].
+        rewrite Pcum, Plv, Ppx, Pqty. split; [exact Hcum|]. split; [exact Hlv|].
+        split; [intros _; apply Hpq, base_ok_not_created, Hb|]. intro E; rewrite E in Hb; discriminate.
+      * unfold ids_idle. cbn [bump set_pend x_base x_clord]. intros _.
+        destruct legacy; cbv [negb andb] in Pids; cbv iota in Pids.
+        -- right. destruct Pids as [P1 P2]. rewrite P2, Hl. split; [reflexivity|]. split; [reflexivity|]. rewrite <- Hl. exact Hn.
+        -- left. destruct Pids as [P1 P2]. rewrite P2, <- Hl. split; [congruence|reflexivity].
+      * destruct legacy; cbv [negb andb] in Pids; cbv iota in Pids; destruct Pids as [P1 P2].
+        -- rewrite P1. exact Hne.
+        -- intro E. rewrite E in P1. apply Hn. congruence.
+      * intro E. rewrite E in Hb. discriminate.
+    + (* the order was cancelled meanwhile (unsolicited cancel crossing the request): the reject is ignored *)
+      assert (Hrc : rej_changes legacy o (x_base x) = false).
+      { unfold rej_changes. rewrite cancel_reject_finished by (rewrite Hoc; reflexivity). reflexivity. }
+      rewrite Hrc in Pst, Pids. cbn [andb] in Pids. destruct Pids as [P1 P2].
+      apply SyIdle; cbn [bump set_pend x_pend x_base x_cum x_leaves x_price x_qty x_clord]; auto.
+      * unfold fields_ok. cbn [bump set_pend x_base x_cum x_leaves x_price x_qty].
+        rewrite Pcum, Plv, Ppx, Pqty. split; [exact Hcum|]. split; [exact Hlv|].
+        split; [intros _; apply Hpq, base_ok_not_created, Hb|]. intro E; rewrite E in Hb; discriminate.
+      * congruence.
+      * unfold ids_idle. cbn [bump set_pend x_base]. rewrite Hxc. intro E. discriminate.
       * rewrite P1. exact Hne.
-      * intro E. rewrite E in P1. apply Hn. congruence.
-    + intro E. rewrite E in Hb. discriminate.
+      * intro E. rewrite E in Hb. discriminate.
 Qed.
 
 Lemma answer_needs_pend x a : is_answer a = true -> x_pend x = None -> xstep x a = None.
